@@ -465,6 +465,74 @@ func (in *finst) outcome() string {
 	return b.String() + in.final
 }
 
+// early-reader scenario: a reader takes Cache() of a filtered subscription before its parent is ready and before a
+// Refilter; the handle it holds must be THE cache of that subscription for good (typed wrappers, clones and joins
+// take it once at construction).
+type einst struct {
+	early, late, want string
+	ready, finished   bool
+}
+
+func (in *einst) run() {
+	a := hx.Pod("ns", "a", "1", "l=1")
+	b := hx.Pod("ns", "b", "1", "l=0")
+	in.want = hx.ListString(objs(b))
+	root := hx.NewRoot(filter.Null())
+	fs, err := root.Pub.SubscribeWithFilter(hx.MkFilter(2))
+	if err != nil {
+		vs.Fail("subscribe: %v", err)
+		return
+	}
+	c0 := fs.Cache()
+	go func() {
+		for range fs.Events() {
+		}
+	}()
+	fin := make(chan bool, 2)
+	go func() { fs.Refilter(hx.MkFilter(3)); fin <- true }()
+	go func() { root.Init(objs(a, b)); fin <- true }()
+	<-fin
+	<-fin
+	<-fs.Ready()
+	in.ready = true
+	vs.SleepIdle(1)
+	if l, err := c0.List(); err == nil {
+		in.early = hx.ListString(l)
+	} else {
+		in.early = "error:" + err.Error()
+	}
+	if l, err := fs.Cache().List(); err == nil {
+		in.late = hx.ListString(l)
+	}
+	in.finished = true
+	root.Stop()
+}
+
+func (in *einst) check(r *vs.Result) []string {
+	if !in.finished {
+		return []string{fmt.Sprintf("hang: early-reader scenario did not finish (ready=%v)", in.ready)}
+	}
+	var msgs []string
+	if in.early != in.want || in.late != in.want {
+		msgs = append(msgs, fmt.Sprintf("cache handle taken before readiness serves another cache | a reader that took Cache() before the parent was ready and before Refilter(l=0) lists %s, a fresh Cache() lists %s, the filtered content is %s", in.early, in.late, in.want))
+	}
+	return msgs
+}
+
+func escenario(mode string, bound int) runner.Sc {
+	return runner.Sc{
+		Scenario: explore.Scenario{
+			Name: fmt.Sprintf("c15/fsub-early-cache-handle/%s%d", mode, bound), Mode: mode, Bound: bound,
+			Cfg: vs.Config{Timers: vs.TimersIdle, MaxSteps: 200000},
+			New: func() explore.Instance {
+				in := &einst{}
+				return explore.Instance{Run: in.run, Check: in.check, Outcome: func() string { return in.early + "|" + in.late }}
+			},
+		},
+		Split: true,
+	}
+}
+
 func fscenario(readers, nreads int, mode string, bound int) runner.Sc {
 	return fscenarioDel(false, readers, nreads, mode, bound)
 }
@@ -501,6 +569,7 @@ func Property() runner.Property {
 			}
 			out = append(out, fscenario(1, 2, "S2", 3), fscenario(2, 2, "S2", 3), fscenarioDel(true, 1, 2, "S2", 3))
 			out = append(out, scenario(4, 1, "list,list", "S2", 3), scenario(4, 2, "list", "S2", 2))
+			out = append(out, escenario("S2", 3))
 			if tier == "thorough" {
 				out = append(out, fscenario(1, 2, "S1", 0), fscenario(2, 2, "S2", 4), fscenario(3, 2, "S2", 3), fscenarioDel(true, 2, 2, "S2", 4))
 				for v := 0; v < 3; v++ {
